@@ -2,6 +2,5 @@ package traefikoidc_test
 
 import "testing"
 
-func familySession(t *testing.T)   { t.Fatal("not built") }
 func familyDiscovery(t *testing.T) { t.Fatal("not built") }
 func familySched(t *testing.T)     { t.Fatal("not built") }
